@@ -593,7 +593,7 @@ func (engine) Minimize(raw json.RawMessage, still func(json.RawMessage) bool) js
 	}
 	var atoms []atom
 	for i := range c.Mod.Pkgs {
-		for _, f := range []string{"depfunc", "depmethod", "pure", "nonnil", "local", "ignore", "initialism", "rangeint", "test", "xtest", "tagfile", "osfiles", "conf"} {
+		for _, f := range []string{"depfunc", "depmethod", "pure", "nonnil", "local", "ignore", "initialism", "rangeint", "ignoreu", "test", "xtest", "tagfile", "osfiles", "conf"} {
 			atoms = append(atoms, atom{i, f})
 		}
 	}
@@ -627,6 +627,8 @@ func (engine) Minimize(raw json.RawMessage, still func(json.RawMessage) bool) js
 				p.Initialism = false
 			case "rangeint":
 				p.RangeInt = false
+			case "ignoreu":
+				p.IgnoreU = false
 			case "test":
 				p.Test = false
 			case "xtest":
